@@ -90,7 +90,7 @@ Record both_case := {
 Definition both_case_ok (c : both_case) : bool :=
   let ch := nat_chain (bc_n c) in
   let h4 := bc_c04 c in
-  let cfg := C1.CFG 0 0 (bc_segdl c) 0 true C1.HNominate in
+  let cfg := C1.CFG 0 0 (bc_segdl c) 0 true C1.HNominate None in
   let st := C1.ST (match C4.hc_latest0 h4 with O => None | p => Some (N.of_nat p) end)
                   (map N.of_nat (C4.hc_store0 h4)) in
   let o := C1.sync_ad_chain (C1.chain_world C1.EPrev [] ch ch) cfg (c01_call (N.of_nat (bc_head c))) st in
